@@ -24,6 +24,42 @@ use crate::val::Val;
 #[derive(Clone, Debug, PartialEq, Eq, Serialize, Deserialize)]
 pub struct V(pub usize);
 
+thread_local! {
+    /// Work budget of the *cost probe* (see `cost_probe`): every item GraphAdapter yields burns one unit.
+    /// i64::MAX = unlimited (all monitored runs). When the budget is exhausted the adapter panics, which
+    /// unwinds out of the engine and frees whatever it had materialised.
+    static FUEL: std::cell::Cell<i64> = const { std::cell::Cell::new(i64::MAX) };
+}
+pub const FUEL_PANIC: &str = "VERIF-FUEL-EXHAUSTED";
+
+#[inline]
+fn burn() {
+    FUEL.with(|f| {
+        let v = f.get();
+        if v != i64::MAX {
+            if v <= 0 {
+                panic!("{}", FUEL_PANIC);
+            }
+            f.set(v - 1);
+        }
+    });
+}
+
+/// Dry run of a case over the plain GraphAdapter with a bounded work budget. Cases whose execution needs
+/// more adapter items than `budget` (folds over recursions over dense multi-edges can need 10^8 and tens
+/// of gigabytes, because the engine materialises fold contents) are skipped by the stream and counted;
+/// they are outside the bounds this harness explores.
+pub fn cost_probe(m: &Rc<SchemaModel>, ds: &Rc<Dataset>, q: &Arc<IndexedQuery>, args: &Args, budget: i64) -> bool {
+    FUEL.with(|f| f.set(budget));
+    let out = execute(Arc::new(GraphAdapter::new(m.clone(), ds.clone())), q.clone(), args, 20_000);
+    FUEL.with(|f| f.set(i64::MAX));
+    match out {
+        ExecOutcome::Panicked { info, .. } if info.message.contains(FUEL_PANIC) => false,
+        ExecOutcome::Rows(r) if r.len() >= 20_000 => false,
+        _ => true,
+    }
+}
+
 #[derive(Clone)]
 pub struct GraphAdapter {
     pub m: Rc<SchemaModel>,
@@ -62,7 +98,10 @@ impl Adapter<'static> for GraphAdapter {
             adj.into_iter()
                 .enumerate()
                 .filter(move |(i, n)| edge_keep(&ds, &params, *i, *n))
-                .map(|(_, n)| V(n)),
+                .map(|(_, n)| {
+                    burn();
+                    V(n)
+                }),
         )
     }
 
@@ -76,6 +115,7 @@ impl Adapter<'static> for GraphAdapter {
         let this = self.clone();
         let name = property_name.clone();
         Box::new(contexts.map(move |ctx| {
+            burn();
             let value = match ctx.active_vertex::<V>() {
                 None => FieldValue::Null,
                 Some(v) => this.prop_value(v, &name),
@@ -96,6 +136,7 @@ impl Adapter<'static> for GraphAdapter {
         let name = edge_name.clone();
         let params = params_to_vals(parameters.iter());
         Box::new(contexts.map(move |ctx| {
+            burn();
             let neighbors: VertexIterator<'static, V> = match ctx.active_vertex::<V>() {
                 None => Box::new(std::iter::empty()),
                 Some(v) => {
@@ -107,7 +148,10 @@ impl Adapter<'static> for GraphAdapter {
                         adj.into_iter()
                             .enumerate()
                             .filter(move |(i, n)| edge_keep(&ds2, &params2, *i, *n))
-                            .map(|(_, n)| V(n)),
+                            .map(|(_, n)| {
+                                burn();
+                                V(n)
+                            }),
                     )
                 }
             };
@@ -125,6 +169,7 @@ impl Adapter<'static> for GraphAdapter {
         let this = self.clone();
         let target = coerce_to_type.clone();
         Box::new(contexts.map(move |ctx| {
+            burn();
             let ok = match ctx.active_vertex::<V>() {
                 None => false,
                 Some(v) => this.m.is_subtype(&this.ds.vertices[v.0].ty, &target),
